@@ -7,6 +7,9 @@ use crate::memtransport as mt;
 #[derive(Clone, Debug, PartialEq)]
 pub enum Fault {
     RpcError,
+    /// an rpc-error of severity error with the k-th error-tag of `TAGS` (a load: with the matching
+    /// `<load-error-count>`): whatever the tag says, it is an error
+    RpcErrorTag(usize),
     /// an rpc-error of severity error, one of severity warning, then `<ok/>`: not an acknowledgement
     ErrWarnOk,
     /// two rpc-errors (warning, error), for a load also `<load-error-count>`: not an acknowledgement
@@ -29,6 +32,7 @@ impl Fault {
     pub fn token(&self) -> &'static str {
         match self {
             Fault::RpcError => "rpcerr",
+            Fault::RpcErrorTag(k) => ["rpcerr-0", "rpcerr-1", "rpcerr-2", "rpcerr-3", "rpcerr-4", "rpcerr-5", "rpcerr-6", "rpcerr-7"][*k % 8],
             Fault::ErrWarnOk => "errwarnok",
             Fault::ErrCount => "errcount",
             Fault::ManyWarnErrOk => "manywarnerrok",
@@ -43,6 +47,7 @@ impl Fault {
     pub fn parse(s: &str) -> Option<Fault> {
         Some(match s {
             "rpcerr" => Fault::RpcError,
+            t if t.starts_with("rpcerr-") => Fault::RpcErrorTag(t[7..].parse().ok()?),
             "errwarnok" => Fault::ErrWarnOk,
             "errcount" => Fault::ErrCount,
             "manywarnerrok" => Fault::ManyWarnErrOk,
@@ -157,9 +162,12 @@ pub async fn serve(peer: mt::Peer, script: Script, log: Arc<Mutex<Log>>) {
         };
         // the error-tag of an injected error varies with the position: the tag never excuses an error
         const TAGS: [&str; 8] = ["operation-failed", "data-missing", "in-use", "data-exists", "lock-denied", "bad-element", "unknown-element", "access-denied"];
-        let err_here = ERR.replace("operation-failed", TAGS[pos % TAGS.len()]);
+        let err_here = match &fault {
+            Some(Fault::RpcErrorTag(k)) => ERR.replace("operation-failed", TAGS[*k % TAGS.len()]),
+            _ => ERR.replace("operation-failed", TAGS[pos % TAGS.len()]),
+        };
         let msg = match fault {
-            Some(Fault::RpcError) => {
+            Some(Fault::RpcError) | Some(Fault::RpcErrorTag(_)) => {
                 if name == "load-configuration" {
                     reply(&id, &format!("<load-configuration-results>{err_here}<load-error-count>1</load-error-count></load-configuration-results>"))
                 } else {
